@@ -143,7 +143,7 @@ func TestVerifDriver(t *testing.T) {
 
 	v := &vLB{fl: map[string]*vReq{}, arrived: make(chan struct{}, 1), release: make(chan int, 1)}
 	v.health = httptest.NewServer(http.HandlerFunc(func(w http.ResponseWriter, r *http.Request) {
-		if v.holdProbe.Load() {
+		if v.holdProbe.CompareAndSwap(true, false) { // exactly one request is held
 			v.arrived <- struct{}{}
 			w.WriteHeader(<-v.release)
 			return
@@ -305,6 +305,54 @@ func (v *vLB) op(w []string) string {
 			return fmt.Sprintf("INCOMPLETE %d of %d concurrent picks found no backend", nils, workers*k)
 		}
 		return "complete"
+	case "affconc":
+		// affconc <now> <workers> <k> : every worker is one client address; its pick is taken once
+		// with nobody else running and must then come back on every one of k picks made while the
+		// other workers pick for their own addresses (affinity is per client, whatever else runs)
+		if len(w) != 4 {
+			return "bad-op"
+		}
+		verifclock.Set(atoi64(w[1]))
+		_, h1 := v.lb.strategy.(*IPHashStrategy)
+		_, h2 := v.lb.strategy.(*IPHashConsistentStrategy)
+		anyElig := false
+		for _, b := range v.lb.strategy.GetBackends() {
+			if b.eligible(verifclock.Now()) {
+				anyElig = true
+			}
+		}
+		if !(h1 || h2) || !anyElig {
+			return "n/a"
+		}
+		workers, k := atoi(w[2]), atoi(w[3])
+		if workers < 1 || workers > 64 || k < 1 || k > 100000 {
+			return "bad-op"
+		}
+		reqs := make([]*http.Request, workers)
+		want := make([]*Backend, workers)
+		for g := range reqs {
+			reqs[g] = httptest.NewRequest("GET", "/", nil)
+			reqs[g].RemoteAddr = fmt.Sprintf("10.%d.%d.%d:99", 3*g+1, 7*g, g)
+			want[g] = v.lb.strategy.NextBackend(reqs[g])
+		}
+		var moved int64
+		var wg sync.WaitGroup
+		for g := 0; g < workers; g++ {
+			wg.Add(1)
+			go func(g int) {
+				defer wg.Done()
+				for i := 0; i < k; i++ {
+					if v.lb.strategy.NextBackend(reqs[g]) != want[g] {
+						atomic.AddInt64(&moved, 1)
+					}
+				}
+			}(g)
+		}
+		wg.Wait()
+		if moved > 0 {
+			return fmt.Sprintf("MOVED %d of %d picks for a fixed client left its backend while other clients were served", moved, workers*k)
+		}
+		return "stable"
 	case "rrconc":
 		// rrconc <workers> <k> : n*k picks of the round-robin strategy made by <workers> concurrent
 		// goroutines; with every backend eligible each backend must be picked exactly k times
